@@ -48,6 +48,12 @@ Sensitivity (quick tier, seed 1, one mutant at a time on a scratch copy; all run
   * ``_parse_header``: ``except ValueError`` around ``collapse_rfc2231_value`` narrowed to ``except UnicodeError`` (a NUL in an
     RFC 2231 charset name raises ValueError('embedded null character') again) ... caught at seeds 1,2,3
     (C43.parse_header_raises on ``a; x*=\\x00''v``, sweep part; also replays/C43/parse-header-rfc2231-charset.json's class)
+  * ``_parse_header`` wrapped in ``lru_cache(1000)`` (every caller gets the SAME mutable (key, dict); a caller that pops
+    keys -- as WebSocketProtocol13 does -- poisons later parses of an equal line) ... caught at seeds 1,2,3
+    (C43.parse_header_depends_on_history): after every successful ``_parse_header`` / ``parse_cookie`` /
+    ``split_host_and_port`` the harness mutates the returned containers and parses an equal-but-not-identical and
+    the identical string again, which must reproduce the first result; ``url_concat`` is called twice and must not
+    mutate its args (ninth-round "state carried over" mutation testing)
   * ``_parse_header`` not lower-casing names ......................... caught (C43.encode_roundtrip)
   * NOT caught because equivalent: ``_netloc_re`` non-greedy (planned in DESIGN; the ``$`` anchor forces
     the same split) and ``(\\d+)`` -> ``(\\d*)`` (``int("")`` lands in the existing ``except ValueError``).
@@ -386,6 +392,35 @@ statusline_s = st.one_of(
 )
 
 
+# ----------------------------------------------------------------------------- reuse of module-level functions
+def reparse_after_mutation(ctx, clause, fn, text, first, detail):
+    """The functions here are module-level and callers mutate what they get back (WebSocketProtocol13 pops keys
+    from _parse_header's dict).  So: snapshot the first result, mutate every mutable container in it the way a
+    caller might, then parse an *equal but not identical* string and the identical string object again; both
+    results must equal the snapshot (each parse is judged independently of history)."""
+    import copy
+    snapshot = copy.deepcopy(first)
+    for obj in (first if isinstance(first, tuple) else (first,)):
+        if isinstance(obj, dict):
+            obj.clear()
+            obj["__poisoned_by_previous_caller__"] = "x"
+        elif isinstance(obj, list):
+            obj[:] = ["__poisoned_by_previous_caller__"]
+    twin = "".join([text[: len(text) // 2], text[len(text) // 2:]])  # equal text, new object (unless empty)
+    for which, arg in (("equal_copy", twin), ("same_object", text)):
+        try:
+            again = fn(arg)
+        except Exception as e:
+            ctx.fail(clause, dict(detail, which=which, first=repr(snapshot)[:300], again_raised=repr(e)[:200]))
+            return
+        if again != snapshot or type(again) is not type(snapshot):
+            ctx.fail(clause, dict(detail, which=which, first=repr(snapshot)[:300], again=repr(again)[:300]))
+            return
+        for obj in (again if isinstance(again, tuple) else (again,)):
+            if isinstance(obj, dict):
+                obj["__poisoned_again__"] = "y"
+
+
 # ----------------------------------------------------------------------------- _parse_header
 _CONT_RE = re.compile(r"(?P<name>\w+)\*((?P<num>[0-9]+)\*?)?$", re.ASCII)
 
@@ -454,6 +489,7 @@ def run_parse_header(ctx, case):
           and all(isinstance(k, str) and isinstance(v, str) for k, v in r[1].items()))
     if not ok:
         ctx.fail("C43.parse_header_result_type", {"line": line, "got": repr(r)})
+    reparse_after_mutation(ctx, "C43.parse_header_depends_on_history", _parse_header, line, r, {"line": line[:300]})
     ctx.note(case, labels, nontrivial=bool(labels & {"ph_quotes", "ph_rfc2231ish", "ph_continuation"}))
 
 
@@ -508,6 +544,7 @@ def run_cookie(ctx, case):
         return
     if not (isinstance(r, dict) and all(isinstance(k, str) and isinstance(v, str) for k, v in r.items())):
         ctx.fail("C43.parse_cookie_result_type", {"cookie": s, "got": repr(r)})
+    reparse_after_mutation(ctx, "C43.parse_cookie_depends_on_history", parse_cookie, s, r, {"cookie": s[:300]})
     ctx.note(case, labels, nontrivial=bool(labels & {"ck_quotes", "ck_backslash"}))
 
 
@@ -549,6 +586,7 @@ def run_hostport(ctx, case):
         return
     if not (isinstance(r, tuple) and len(r) == 2 and isinstance(r[0], str) and (r[1] is None or type(r[1]) is int)):
         ctx.fail("C43.hostport_result_type", {"netloc": s[:200], "got": repr(r)[:200]})
+    reparse_after_mutation(ctx, "C43.hostport_depends_on_history", split_host_and_port, s, r, {"netloc": s[:200]})
     host, port = r
     if port is None:
         labels.add("hp_no_port")
@@ -804,7 +842,12 @@ def run_url_concat(ctx, case):
         arg = list(pairs)
     else:
         arg = tuple(pairs)
+    arg_before = repr(arg)
     r = url_concat(url, arg)
+    if repr(arg) != arg_before:
+        ctx.fail("C43.url_concat_mutated_args", {"url": url, "before": arg_before, "after": repr(arg)})
+    if url_concat("".join([url[:1], url[1:]]), arg) != r:
+        ctx.fail("C43.url_concat_depends_on_history", {"url": url, "args": arg_before, "first": r})
     if not isinstance(r, str):
         ctx.fail("C43.url_concat_type", {"got": repr(r)})
     pre2, query2, frag2 = _split_url(r)
